@@ -20,7 +20,8 @@ generated definition equal to the hand-written model.  Anything outside the subs
                                      'roadm-pmd' / 'roadm-pdl' are read from parameters.RoadmImpairment.default_values
    set_roadm_paths / get_roadm_path  templates only (first profile of the path type, else the given id, else the
                                      global impairment; first registered path from->to)
-   to_json                           template only for the three per-degree exports (independent `if`s)
+   to_json                           templates only: the node-level policy is exported as held (key, un-altered value); the
+                                     three per-degree tables by three independent `if`s
  gnpy/core/network.py
    set_roadm_per_degree_targets      template SETT; translated: the "no own target" test, the three node-level tests, and
                                      which table receives which node value
@@ -34,6 +35,13 @@ generated definition equal to the hand-written model.  Anything outside the subs
                                      re-indexed with the same index (`[indices]` / `[select]`)
  gnpy/topology/request.py compute_path_with_disjunction      structural rule: the two branches that adopt the selected mode
                                      copy the same mode fields into the request, the equalisation offset among them
+ gnpy/tools/convert.py    create_roadm_element               template CREATE_ROADM_ROW for the body of the loop over the Roadms
+                                     sheet rows of a node: the per-degree target and the impairment ids of a row are taken
+                                     independently of each other
+ gnpy/topology/request.py propagate_and_optimize_mode        template POM_TEMPLATE of harness/pygen_c13.py (whole body: the
+                                     spectrum of an iteration is built with delta_pdb=this_offset); translated: the filter
+                                     of the modes explored on that spectrum (g_mode_explored) — obligation: every explored
+                                     mode has the baud rate and the equalisation offset the spectrum was built with
 Float constants are read as the decimal they are written as.
 """
 import ast
@@ -199,6 +207,17 @@ if self.per_degree_pch_psw:
     to_json['params']['per_degree_psd_out_mWperSlotWidth'] = self.per_degree_pch_psw
 """
 
+TOJSON_NODE = """
+if self.target_pch_out_dbm is not None:
+    equalisation, value = 'target_pch_out_db', self.target_pch_out_dbm
+elif self.target_psd_out_mWperGHz is not None:
+    equalisation, value = 'target_psd_out_mWperGHz', self.target_psd_out_mWperGHz
+elif self.target_out_mWperSlotWidth is not None:
+    equalisation, value = 'target_out_mWperSlotWidth', self.target_out_mWperSlotWidth
+else:
+    assert False, 'There must be one default equalization defined in ROADM'
+"""
+
 SETT = """
 next_oms = (n for n in network.successors(roadm) if not isinstance(n, elements.Transceiver))
 for node in next_oms:
@@ -328,6 +347,27 @@ MERGE_EQ_NULLS = MERGE_EQ.replace("""if sum(roadm_equalizations.values()) == H_b
     for equ in equalization_types:
         params.pop(equ, None)
     return extra_params""")
+
+CREATE_ROADM_ROW = """
+to_node = f'east edfa in {node.city} to {elem.to_node}'
+if elem.target_pch_out_db is not None:
+    roadm['params']['per_degree_pch_out_db'][to_node] = elem.target_pch_out_db
+if elem.from_degrees is not None and elem.impairment_ids is not None:
+    if roadm['params'].get('per_degree_impairments') is None:
+        roadm['params']['per_degree_impairments'] = []
+    fromdegrees = elem.from_degrees.split(' | ')
+    impairment_ids = transform_data(elem.impairment_ids)
+    if len(fromdegrees) != len(impairment_ids):
+        msg = H_msg
+        raise NetworkTopologyError(msg)
+    for from_degree, impairment_id in zip(fromdegrees, impairment_ids):
+        from_node = f'west edfa in {node.city} to {from_degree}'
+        roadm['params']['per_degree_impairments'].append({'from_degree': from_node,
+                                                          'to_degree': to_node,
+                                                          'impairment_id': impairment_id})
+if elem.type_variety is not None:
+    roadm['type_variety'] = elem.type_variety
+"""
 
 PSD2POWER = """
 return lin2db(baudrate_baud * psd_mwperghz * 1e-9)
@@ -578,6 +618,13 @@ Definition g_equalize (pl : policy) (cm : chan * Q) : chan :=
     if sum(1 for s in ast.walk(tj) if isinstance(s, ast.Constant) and isinstance(s.value, str)
            and s.value.startswith('per_degree_p')) != 3:
         raise Unsupported('Roadm.to_json: per-degree keys')
+    # the node-level policy is exported as it is held (key and value), and lands under that key in 'params'
+    match_template(TOJSON_NODE, body[:1], 'Roadm.to_json (node-level policy)')
+    exports = [s for s in ast.walk(tj) if isinstance(s, ast.Dict)
+               and any(isinstance(k, ast.Name) and k.id == 'equalisation' for k in s.keys)]
+    if len(exports) != 1 or not any(isinstance(k, ast.Name) and k.id == 'equalisation' and isinstance(v, ast.Name) and v.id == 'value'
+                                    for k, v in zip(exports[0].keys, exports[0].values)):
+        raise Unsupported('Roadm.to_json: `equalisation: value` entry of params')
 
     # ---- network.set_roadm_per_degree_targets
     fn = find(nw, 'set_roadm_per_degree_targets')
@@ -723,6 +770,38 @@ Definition g_equalize (pl : policy) (cm : chan * Q) : chan :=
             found += 1
     if found != 1:
         raise Unsupported('compute_path_with_disjunction: mode adoption block not found')
+    # convert.create_roadm_element: one Roadms-sheet row gives its target AND its impairment ids
+    fn = find(parse(repo, 'gnpy/tools/convert.py'), 'create_roadm_element')
+    loops = [s for s in ast.walk(fn) if isinstance(s, ast.For) and isinstance(s.iter, ast.Subscript)
+             and key_of(s.iter.value) == 'roadms_by_city']
+    if len(loops) != 1:
+        raise Unsupported('create_roadm_element: loop over the Roadms rows of the node not found')
+    match_template(CREATE_ROADM_ROW, loops[0].body, 'create_roadm_element (one Roadms-sheet row)')
+    # request.propagate_and_optimize_mode: which modes are explored on the spectrum built with (this_br, this_offset)
+    from .pygen_c13 import POM_TEMPLATE
+    b = match_template(POM_TEMPLATE, strip_doc(find(rq, 'propagate_and_optimize_mode').body), 'propagate_and_optimize_mode')
+
+    def mode_filter(n):
+        if isinstance(n, ast.BoolOp) and isinstance(n.op, ast.And):
+            return '(' + ' && '.join(mode_filter(v) for v in n.values) + ')'
+        if isinstance(n, ast.Compare) and len(n.ops) == 1:
+            leaves = {"this_mode['baud_rate']": 'mb', "this_mode['equalization_offset_db']": 'mo', 'this_br': 'br',
+                      'this_offset': 'off', 'req.spacing': 'sp', "float(this_mode['min_spacing'])": 'msp'}
+
+            def leaf(x):
+                k = "float(this_mode['min_spacing'])" if isinstance(x, ast.Call) and key_of(x.func) == 'float' \
+                    and len(x.args) == 1 and key_of(x.args[0]) == "this_mode['min_spacing']" else key_of(x)
+                if k not in leaves:
+                    raise Unsupported('mode filter leaf ' + k)
+                return leaves[k]
+            l, r = leaf(n.left), leaf(n.comparators[0])
+            if isinstance(n.ops[0], ast.Eq):
+                return f'Qeq_bool {l} {r}'
+            if isinstance(n.ops[0], ast.LtE):
+                return f'Qle_bool {l} {r}'
+        raise Unsupported('mode filter ' + ast.dump(n)[:120])
+    out.append('(* request.propagate_and_optimize_mode: the modes explored on the spectrum built with baud rate br and offset off *)')
+    out.append(f"Definition g_mode_explored (mb mo msp br off sp : Q) : bool := {mode_filter(b['H_filter'])}.")
     return '\n'.join(out) + '\n'
 
 
